@@ -455,3 +455,197 @@ def odd_symlinks(ctx, label='symlinked directories with white space in their nam
             os.rmdir(elsewhere)
     ctx.counted(label, n, n // 2, [{'path': 'link /x', 'pattern': '**/x', 'flags': 'GLOBSTAR|REALPATH'}])
     return n
+
+
+DEEP_SCRIPT = r'''
+import os, sys, json, resource, tempfile, shutil
+from wcmatch import glob as G
+depth = int(sys.argv[1]); nofile = int(sys.argv[2])
+root = tempfile.mkdtemp(prefix='wcdeep_')
+try:
+    p = root
+    for i in range(depth):
+        p = os.path.join(p, 'd')
+        os.mkdir(p)
+    open(os.path.join(p, 'leaf.txt'), 'w').close()
+    soft, hard = resource.getrlimit(resource.RLIMIT_NOFILE)
+    resource.setrlimit(resource.RLIMIT_NOFILE, (nofile, hard))
+    out = {}
+    for nm, fl in (('GLOBSTAR', G.GLOBSTAR), ('GLOBSTAR|MARK', G.GLOBSTAR | G.MARK)):
+        a = G.glob('**', flags=fl, root_dir=root)
+        b = [os.fsdecode(x) for x in G.glob(b'**', flags=fl, root_dir=os.fsencode(root))]
+        fd = os.open(root, os.O_RDONLY)
+        try:
+            c = G.glob('**', flags=fl, dir_fd=fd)
+            ci = list(G.iglob('**/leaf.txt', flags=fl, dir_fd=fd))
+        finally:
+            os.close(fd)
+        old = os.getcwd(); os.chdir(root)
+        try:
+            d = G.glob('**', flags=fl)
+        finally:
+            os.chdir(old)
+        out[nm] = {'root_dir': len(a), 'bytes root_dir': len(b), 'dir_fd': len(c), 'chdir': len(d), 'dir_fd, **/leaf.txt': len(ci) + depth,
+                   'same': a == b == c == d}
+    resource.setrlimit(resource.RLIMIT_NOFILE, (soft, hard))
+    print(json.dumps(out))
+finally:
+    shutil.rmtree(root, ignore_errors=True)
+'''
+
+
+def deep_tree_roots(ctx, label='a very deep tree with a small descriptor budget'):
+    """A chain of nested directories, walked in a child process whose descriptor limit is lowered: every way of giving the
+    root returns every level (depth + 1 paths) - the walk needs a bounded number of open descriptors, not one per level."""
+    import json
+    import subprocess
+    import sys
+    from wclib import REPO
+    n = 0
+    for depth, nofile in ((60, 64), (150, 256), (150, 200)):
+        n += 1
+        env = dict(os.environ, PYTHONPATH=REPO, PYTHONHASHSEED='0')
+        r = subprocess.run([sys.executable, '-c', DEEP_SCRIPT, str(depth), str(nofile)], capture_output=True, text=True, env=env, cwd='/', timeout=300)
+        try:
+            out = json.loads(r.stdout.strip().splitlines()[-1])
+        except Exception:
+            ctx.counterexample('glob(`**`) on a chain of %d nested directories with RLIMIT_NOFILE=%d: the child process failed: %s' % (depth, nofile, (r.stderr or r.stdout)[-300:]), {'depth': depth, 'nofile': nofile})
+            continue
+        for nm, d in out.items():
+            wrong = [k for k, v in d.items() if (k != 'same' and v != depth + 1) or (k == 'same' and not v)]
+            if wrong:
+                ctx.counterexample('glob(`**`, %s) on a chain of %d nested directories, RLIMIT_NOFILE=%d: %d paths exist; results by root: %r' % (nm, depth, nofile, depth + 1, d),
+                                   {'depth': depth, 'nofile': nofile, 'flags': nm, 'results': d, 'script': 'fringe.DEEP_SCRIPT %d %d' % (depth, nofile)})
+                break
+    ctx.counted(label, n * 10, n * 10, [{'depth': 150, 'RLIMIT_NOFILE': 256}])
+    return n
+
+
+def ascii_controls(ctx, label='every ASCII character, control characters included: str vs bytes'):
+    """For every ASCII code point as name and every POSIX class / a few bracket forms, str and bytes answer alike (and as
+    the documented C-locale class says); WcMatch treats a pattern made of control characters alike for str and bytes."""
+    import trees
+    from wcmatch import fnmatch as Fm, glob as Gm, wcmatch as WMm
+    n = bad = 0
+    doc = {'alnum': lambda o: chr(o).isalnum(), 'alpha': lambda o: chr(o).isalpha(), 'ascii': lambda o: True, 'blank': lambda o: o in (9, 32), 'cntrl': lambda o: o < 32 or o == 127,
+           'digit': lambda o: 48 <= o <= 57, 'graph': lambda o: 33 <= o <= 126, 'lower': lambda o: 97 <= o <= 122, 'print': lambda o: 32 <= o <= 126,
+           'punct': lambda o: 33 <= o <= 126 and not chr(o).isalnum(), 'space': lambda o: o in (9, 10, 11, 12, 13, 32), 'upper': lambda o: 65 <= o <= 90,
+           'word': lambda o: chr(o).isalnum() or o == 95, 'xdigit': lambda o: chr(o) in '0123456789abcdefABCDEF'}
+    for cl, member in doc.items():
+        for form, neg in (('[[:%s:]]', False), ('[![:%s:]]', True), ('x[[:%s:]]', False), ('+([[:%s:]])', False)):
+            pat = form % cl
+            fl = Fm.EXTMATCH | Fm.DOTMATCH | Fm.FORCEUNIX
+            cs, cb = Fm.compile(pat, flags=fl), Fm.compile(pat.encode(), flags=fl)
+            for o in range(128):
+                if o == 47 and neg:
+                    pass
+                nm = ('x' if form.startswith('x') else '') + chr(o)
+                n += 1
+                a, b = bool(cs.match(nm)), bool(cb.match(nm.encode()))
+                want = member(o) != neg
+                if (a != b or a != want) and bad < 4:
+                    bad += 1
+                    ctx.counterexample('fnmatch(%r, %r) is %r for str and %r for bytes; U+%04X is%s in the C-locale class %s' % (nm, pat, a, b, o, '' if member(o) else ' not', cl),
+                                       {'name': nm, 'pattern': pat, 'class': cl, 'code_point': o, 'str': a, 'bytes': b})
+    for pat in ('?', '[!a]', '[\x00-\x1f]', '*', '[[:space:][:cntrl:]]', '[\x1c-\x1f]'):
+        for o in list(range(33)) + [127]:
+            if o == 47:
+                continue
+            n += 1
+            nm = chr(o)
+            a = (Fm.fnmatch(nm, pat, flags=Fm.DOTMATCH), Fm.filter([nm], pat, flags=Fm.DOTMATCH) == [nm], Gm.globmatch(nm, pat, flags=Gm.DOTGLOB), Gm.globfilter([nm], pat, flags=Gm.DOTGLOB) == [nm])
+            bn, bp = nm.encode(), pat.encode('latin-1')
+            b = (Fm.fnmatch(bn, bp, flags=Fm.DOTMATCH), Fm.filter([bn], bp, flags=Fm.DOTMATCH) == [bn], Gm.globmatch(bn, bp, flags=Gm.DOTGLOB), Gm.globfilter([bn], bp, flags=Gm.DOTGLOB) == [bn])
+            if a != b and bad < 4:
+                bad += 1
+                ctx.counterexample('(fnmatch, filter, globmatch, globfilter)(%r, %r) = %r for str, %r for bytes' % (nm, pat, a, b), {'name': nm, 'pattern': pat})
+    spec = [('a.txt', 'f', None), ('b.py', 'f', None), ('\x1f', 'f', None), ('\x1c', 'd', None), ('\x1c/in.txt', 'f', None), ('\x1e', 'd', None), ('\x1e/e.txt', 'f', None), (' ', 'f', None), ('\t', 'd', None), ('\t/t.txt', 'f', None)]
+    with trees.Tree(spec) as T:
+        for fp, ep in (('\x1f', None), ('\x1c', None), ('*', '\x1e'), ('*.txt', '\x1c'), ('\x1e|\x1f', None), (' ', None), ('*', '\t'), ('\x1d', '\x1d'), ('', None), ('*', ''), ('\x1c\x1d', '\x1e\x1f'), ('\n', '\x0b'), ('*', ' ')):
+            for fl in (WMm.RECURSIVE, WMm.RECURSIVE | WMm.HIDDEN, 0):
+                n += 1
+                try:
+                    a = sorted(os.path.relpath(x, T.root) for x in WMm.WcMatch(T.root, fp, ep, flags=fl).match())
+                    b = sorted(os.fsdecode(os.path.relpath(x, os.fsencode(T.root))) for x in WMm.WcMatch(os.fsencode(T.root), fp.encode(), None if ep is None else ep.encode(), flags=fl).match())
+                except Exception as ex:
+                    a, b = 'raised', '%s: %s' % (type(ex).__name__, ex)
+                if a != b and bad < 6:
+                    bad += 1
+                    ctx.counterexample('WcMatch(root, %r, %r, flags=%#x) returns %r for str and %r for bytes' % (fp, ep, fl, a, b), {'file_pattern': fp, 'exclude_pattern': ep, 'flags': fl, 'tree': [x[0] for x in spec]})
+    ctx.counted(label, n, n // 2, [{'name': '\x1c', 'pattern': '[[:space:]]'}])
+    return n
+
+
+HIST_SCRIPT = r'''
+import sys, json, os, tempfile, shutil
+from wcmatch import fnmatch as F, glob as G, pathlib as P, _wcparse as W
+I = F.IGNORECASE
+tmp = tempfile.mkdtemp(prefix='wchist_')
+os.makedirs(os.path.join(tmp, 'sub'))
+open(os.path.join(tmp, 'Readme.MD'), 'w').close()
+os.chdir(tmp)
+out = []
+try:
+    for e in json.loads(sys.argv[1]):
+        if e == 'CLEAR':
+            W._compile.cache_clear(); out.append('cleared'); continue
+        try:
+            out.append(repr(eval(e)))
+        except Exception as ex:
+            out.append('EXC %s' % type(ex).__name__)
+    print(json.dumps(out))
+finally:
+    os.chdir('/'); shutil.rmtree(tmp, ignore_errors=True)
+'''
+
+HIST_GROUPS = [
+    ["F.fnmatch('dil.txt', 'DİL.txt', flags=I)", "F.fnmatch('di̇l.txt', 'di̇l.txt', flags=I)", "F.fnmatch('dİl.txt', 'di̇l.txt', flags=I)", "F.filter(['di̇l.txt', 'dil.txt'], 'DİL.txt', flags=I)"],
+    ["F.fnmatch('_', '[A-z]', flags=I)", "F.fnmatch('_', '[a-z]', flags=I)", "F.compile('[a-z]', flags=I).match('_')", "F.translate('[A-z]', flags=I)", "F.translate('[a-z]', flags=I)"],
+    ["F.fnmatch('Q', '[[:UPPER:]]', flags=I)", "F.fnmatch('Q', '[[:upper:]]', flags=I)", "F.fnmatch('U]', '[[:UPPER:]]', flags=I)", "F.fnmatch('U]', '[[:upper:]]', flags=I)"],
+    ["G.globmatch('x/i̇.py', '**/İ.py', flags=G.GLOBSTAR | I)", "G.globmatch('x/i̇.py', '**/i̇.py', flags=G.GLOBSTAR | I)", "G.globfilter(['x/i̇.py', 'x/i.py'], '**/İ.py', flags=G.GLOBSTAR | I)"],
+    ["F.fnmatch('a_', '[A-z][A-z]', flags=F.FORCEWIN)", "F.fnmatch('a_', '[a-z][a-z]', flags=F.FORCEWIN)", "F.fnmatch('a_', '[A-Z][A-Z]', flags=F.FORCEWIN)"],
+    ["P.PureWindowsPath('Readme.MD').globmatch('*.md', flags=G.CASE)", "P.PureWindowsPath('README.md').globmatch('*.md', flags=G.CASE)", "P.PureWindowsPath('readme.md').match('*.MD', flags=G.CASE)", "P.PureWindowsPath('README.md').full_match('README.md', flags=G.CASE)"],
+    ["P.Path('sub').globmatch('**/sub/', flags=G.GLOBSTAR)", "P.PurePath('sub').globmatch('**/sub/', flags=G.GLOBSTAR)", "P.PurePosixPath('sub').globmatch('sub/')", "P.Path('sub').globmatch('sub/')", "P.Path('Readme.MD').globmatch('*/')"],
+    ["P.PurePosixPath('a/B.txt').match('b.TXT')", "P.PureWindowsPath('a/B.txt').match('b.TXT')", "P.PurePosixPath('a/B.txt').match('b.TXT', flags=I)", "P.PureWindowsPath('A/b.TXT').match('a/B.txt', flags=G.CASE)"],
+    ["F.fnmatch('K', 'k', flags=I)", "F.fnmatch('K', 'K', flags=I)", "F.fnmatch('k', 'K', flags=I)", "F.fnmatch('ſ', 'S', flags=I)", "F.fnmatch('ſ', 's', flags=I)"],
+]
+
+
+def twin_histories(ctx, label='histories of calls whose arguments are equal up to case or up to pathlib equality'):
+    """Each call answers as it does alone in a fresh interpreter, after any of the others - with the compile cache cleared in
+    between as well: patterns equal up to str.lower(), path objects that compare equal but are not the same text or type."""
+    import json
+    import subprocess
+    import sys
+    from wclib import REPO
+    env = dict(os.environ, PYTHONPATH=REPO, PYTHONHASHSEED='0')
+
+    def child(calls):
+        r = subprocess.run([sys.executable, '-c', HIST_SCRIPT, json.dumps(calls)], capture_output=True, text=True, env=env, cwd='/', timeout=120)
+        try:
+            return json.loads(r.stdout.strip().splitlines()[-1])
+        except Exception:
+            return ['CHILD FAILED: ' + (r.stderr or '')[-200:]] * len(calls)
+    n = bad = 0
+    for grp in HIST_GROUPS:
+        alone = {e: child([e])[0] for e in grp}
+        orders = [list(grp), list(reversed(grp))]
+        for a in grp:
+            for b in grp:
+                if a != b:
+                    orders.append([a, b])
+                    orders.append([a, 'CLEAR', b])
+        from concurrent.futures import ThreadPoolExecutor
+        orders = [list(k) for k in dict.fromkeys(tuple(o) for o in orders)]
+        with ThreadPoolExecutor(max_workers=8) as ex_:
+            gots = list(ex_.map(child, orders))
+        for order, got in zip(orders, gots):
+            for e, g in zip(order, got):
+                if e == 'CLEAR':
+                    continue
+                n += 1
+                if g != alone[e] and bad < 4:
+                    bad += 1
+                    ctx.counterexample('%s answers %s after the calls %r, but %s alone in a fresh interpreter' % (e, g, order[:order.index(e)], alone[e]), {'call': e, 'history': order[:order.index(e)], 'in_history': g, 'alone': alone[e]})
+    ctx.counted(label, n, n // 2, [{'call': HIST_GROUPS[1][1], 'history': [HIST_GROUPS[1][0]]}])
+    return n
